@@ -87,7 +87,7 @@ def strongly_connected_components[S](
     components: list[list[S]] = []
     iterations = 0
 
-    def strongconnect(v: S) -> None:
+    def enter(v: S) -> None:
         nonlocal iterations
         iterations += 1
 
@@ -97,26 +97,40 @@ def strongly_connected_components[S](
         stack.append(v)
         on_stack.add(v)
 
-        for w in neighbors(v):
-            if w not in index:
-                strongconnect(w)
-                low_link[v] = min(low_link[v], low_link[w])
-            elif w in on_stack:
-                low_link[v] = min(low_link[v], index[w])
+    # Iterative DFS (explicit work stack): recursion would overflow on long chains
+    for root in node_list:
+        if root in index:
+            continue
+        enter(root)
+        work = [(root, iter(neighbors(root)))]
 
-        if low_link[v] == index[v]:
-            component: list[S] = []
-            while True:
-                w = stack.pop()
-                on_stack.remove(w)
-                component.append(w)
-                if w == v:
+        while work:
+            v, successors = work[-1]
+            descended = False
+            for w in successors:
+                if w not in index:
+                    enter(w)
+                    work.append((w, iter(neighbors(w))))
+                    descended = True
                     break
-            components.append(component)
+                elif w in on_stack:
+                    low_link[v] = min(low_link[v], index[w])
+            if descended:
+                continue
 
-    for v in node_list:
-        if v not in index:
-            strongconnect(v)
+            work.pop()
+            if low_link[v] == index[v]:
+                component: list[S] = []
+                while True:
+                    w = stack.pop()
+                    on_stack.remove(w)
+                    component.append(w)
+                    if w == v:
+                        break
+                components.append(component)
+            if work:
+                parent = work[-1][0]
+                low_link[parent] = min(low_link[parent], low_link[v])
 
     return Result(components, len(components), iterations, len(node_list))
 
